@@ -1,7 +1,9 @@
-"""C04 (one clause): select1(k)/select0(k) refuse k >= count with an error and get/rank refuse an
-out-of-range position before any unchecked word access. Numeric correctness is NOT decided."""
+"""C04 (two clauses): select1(k)/select0(k) refuse k >= count with an error and get/rank refuse an
+out-of-range position before any unchecked word access; BitVector's shrinking methods clear the storage they
+vacate (R-SHRINK: the rank/select builders popcount whole words). Numeric correctness is NOT decided."""
 from vlib import fixtures
 from props import _refusal_common as rc
+from rules import shrink
 
 FILES = ['src/succinct/bit_vector.rs', 'src/succinct/rank_select/mod.rs', 'src/succinct/rank_select/interleaved.rs',
          'src/succinct/rank_select/separated.rs', 'src/succinct/rank_select/separated_512.rs',
@@ -13,19 +15,22 @@ FILES = ['src/succinct/bit_vector.rs', 'src/succinct/rank_select/mod.rs', 'src/s
 
 def run(ctx):
     fx = ctx.facts("default")
-    fixtures.run(ctx, ['taint'])
+    fixtures.run(ctx, ['taint', 'shrink'])
+    # rank/select builders popcount whole words: BitVector must clear what it vacates
+    shrink.run(ctx, fx, 'src/succinct/bit_vector.rs', 'succinct::bit_vector::BitVector', 'len', 'blocks')
+    ctx.floor('R-SHRINK.methods', 3)
     rc.accessors(ctx, fx, FILES, r'^select[01](_.*)?$', "R-GUARD.refusal", all_success=True)
     ctx.floor("R-GUARD.refusal.accessors", 15)
     rc.unsafe_sinks(ctx, fx, FILES, "R-GUARD")
     ctx.floor("R-GUARD.entries", 60)
     return dict(
-        level_note="decides ONLY the refusal clause of C04 (select refuses k >= count; positions are checked before unchecked "
-                   "access). Rank directories, in-word select, block boundaries and agreement between implementations - the "
+        level_note="decides the refusal clause of C04 (select refuses k >= count; positions are checked before unchecked "
+                   "access) and the storage invariant 'bits beyond len are cleared by pop/resize/clear' that every whole-word popcount relies on. Rank directories, in-word select, block boundaries and agreement between implementations - the "
                    "substance of C04 - are value-level and NOT decided.",
         explanation="refusal form of R-GUARD: for every select1/select0 (incl. accelerated variants) the rank parameter must be "
                     "compared with a count-derived value on an edge that cannot reach a successful return, or be forwarded to a "
                     "callee checked the same way; index-like parameters of all public/trait functions of the files must be "
                     "guarded before get_unchecked / pointer arithmetic.",
-        trusted_base=["rustc nightly MIR", "zfacts", "rules/refusal.py", "rules/taint.py"],
+        trusted_base=["rustc nightly MIR", "zfacts", "rules/refusal.py", "rules/taint.py", "rules/shrink.py"],
         rule_text="obligation = (accessor, index-like parameter) | unchecked sink with a parameter-derived operand",
     )
